@@ -184,6 +184,50 @@ func fieldTags(src string) map[string]string {
 type c16Schema struct {
 	id     string
 	schema J
+	extra  []genlab.File // sibling files referenced by the schema
+}
+
+// files returns the input files of the schema (main file first).
+func (s c16Schema) files() []genlab.File {
+	return append([]genlab.File{{Path: "s.json", Content: space.Text(s.schema)}}, s.extra...)
+}
+
+// c16FileRefs: titled documents that refer to whole sibling documents (with and without an explicit root type, titled and
+// untitled), to a definition of a sibling document, from a property, an array item and a definition. The naming options
+// must act on the schema they name, also when it is reached through a reference.
+func c16FileRefs() []c16Schema {
+	str := J{"type": "string"}
+	other := func(typed, titled bool) J {
+		o := J{"$id": "https://example.com/other", "properties": J{"name": str, "homeUrl": J{"type": "string", "minLength": 1}}, "required": A{"name"},
+			"$defs": J{"part_id": J{"type": "object", "title": "part id holder", "properties": J{"id": J{"type": "integer"}}}}}
+		if typed {
+			o["type"] = "object"
+		}
+		if titled {
+			o["title"] = "customer url Record"
+		}
+		return o
+	}
+	var out []c16Schema
+	for _, typed := range []bool{false, true} {
+		for _, titled := range []bool{true, false} {
+			ofile := []genlab.File{{Path: "other.json", Content: space.Text(other(typed, titled))}}
+			name := fmt.Sprintf("typed=%v/titled=%v", typed, titled)
+			mk := func(kind string, props J, defs J) {
+				s := J{"$id": "https://example.com/schema", "title": "purchase Order", "type": "object", "properties": props, "required": A{"id"}}
+				if defs != nil {
+					s["$defs"] = defs
+				}
+				out = append(out, c16Schema{"fileref/" + kind + "/" + name, s, ofile})
+			}
+			mk("whole/prop", J{"id": str, "customer": J{"$ref": "other.json"}}, nil)
+			mk("whole/item", J{"id": str, "customers": J{"type": "array", "items": J{"$ref": "other.json"}}}, nil)
+			mk("whole/from-def", J{"id": str, "line": J{"$ref": "#/$defs/line"}}, J{"line": J{"type": "object", "title": "order line", "properties": J{"buyer": J{"$ref": "other.json"}}}})
+			mk("whole/two-referrers", J{"id": str, "buyer": J{"$ref": "other.json"}, "seller": J{"$ref": "other.json"}}, nil)
+			mk("fragment/prop", J{"id": str, "part": J{"$ref": "other.json#/$defs/part_id"}}, nil)
+		}
+	}
+	return out
 }
 
 func c16Schemas(level int) []c16Schema {
@@ -199,7 +243,7 @@ func c16Schemas(level int) []c16Schema {
 		s := space.Clone(sc.Schema)
 		s["$id"] = "https://example.com/schema"
 		s["title"] = "the url id Title"
-		out = append(out, c16Schema{sc.ID, s})
+		out = append(out, c16Schema{sc.ID, s, nil})
 	}
 	for _, b := range c13Bases(0) {
 		s := space.Clone(b.Schema)
@@ -207,12 +251,13 @@ func c16Schemas(level int) []c16Schema {
 		if _, ok := s["title"]; !ok {
 			s["title"] = "an id url holder"
 		}
-		out = append(out, c16Schema{b.ID, s})
+		out = append(out, c16Schema{b.ID, s, nil})
 	}
 	out = append(out, c16Schema{"caps-names", J{"$id": "https://example.com/schema", "title": "Api Url list", "type": "object",
 		"properties": J{"id": J{"type": "string"}, "user_id": J{"type": "integer"}, "homeUrl": J{"type": "string", "minLength": 1}, "url": J{"type": "object", "title": "url holder", "properties": J{"id": J{"type": "string"}}, "required": A{"id"}},
 			"ids": J{"type": "array", "items": J{"type": "string", "enum": A{"id", "url-x"}}}},
-		"required": A{"id"}}})
+		"required": A{"id"}}, nil})
+	out = append(out, c16FileRefs()...)
 	return out
 }
 
@@ -258,7 +303,7 @@ func c16(ctx *Ctx) {
 				if vi >= 0 {
 					variants[vi].mod(&cfg)
 				}
-				gc := genlab.Case{ID: fmt.Sprintf("C16/%s/%s", s.id, b.Name), Files: []genlab.File{{Path: "s.json", Content: space.Text(s.schema)}}, Args: []string{"s.json"}, Cfg: cfg}
+				gc := genlab.Case{ID: fmt.Sprintf("C16/%s/%s", s.id, b.Name), Files: s.files(), Args: []string{"s.json"}, Cfg: cfg}
 				jobs = append(jobs, genlab.Job{Op: "gen", Case: &gc, KeepOutputs: true})
 				keys = append(keys, jobKey{si, bi, vi})
 			}
@@ -290,7 +335,7 @@ func c16(ctx *Ctx) {
 				k := jobKey{si, bi, vi}
 				vs, vok := src(res[k])
 				id := fmt.Sprintf("C16/%s/base=%s/%s", s.id, b.Name, v.name)
-				replay := map[string]any{"kind": "option-pair", "schema": s.schema, "base_cfg": cfgs[jobKey{si, bi, -1}].Cfg, "variant_cfg": cfgs[k].Cfg}
+				replay := map[string]any{"kind": "option-pair", "schema": s.schema, "files": s.files(), "base_cfg": cfgs[jobKey{si, bi, -1}].Cfg, "variant_cfg": cfgs[k].Cfg}
 				if ok != vok {
 					ctx.Run.Eval(id, true)
 					ctx.Run.Violation("success-differs:"+v.name, fmt.Sprintf("%s: generation succeeds with one option set and fails with the other (base ok=%v, variant ok=%v)", id, ok, vok), replay)
@@ -634,7 +679,7 @@ func c16CLI(ctx *Ctx, schemas []c16Schema) {
 	var keys []ck
 	for si := 0; si < len(schemas); si += step {
 		for fi, fc := range fcs {
-			gc := genlab.Case{ID: "cli", Files: []genlab.File{{Path: "s.json", Content: space.Text(schemas[si].schema)}}, Args: []string{"s.json"}, Cfg: fc.cfg}
+			gc := genlab.Case{ID: "cli", Files: schemas[si].files(), Args: []string{"s.json"}, Cfg: fc.cfg}
 			jobs = append(jobs, genlab.Job{Op: "gen", Case: &gc, KeepOutputs: true})
 			keys = append(keys, ck{si, fi})
 		}
@@ -649,14 +694,14 @@ func c16CLI(ctx *Ctx, schemas []c16Schema) {
 		s := schemas[k.s]
 		d := filepath.Join(dir, fmt.Sprintf("c%05d", i))
 		os.MkdirAll(d, 0o755)
-		os.WriteFile(filepath.Join(d, "s.json"), []byte(space.Text(s.schema)), 0o644)
+		genlab.Materialise(d, s.files())
 		args := append(fc.cfg.Flags(), "s.json")
 		r := genlab.RunCLI(bin, d, args, "", 60*time.Second)
 		l := lib[k]
 		id := fmt.Sprintf("C16/cli/%s/%s", s.id, fc.name)
 		ctx.Run.Eval(id, true)
 		ctx.Run.Count("cli_runs_compared_with_library", 1)
-		replay := map[string]any{"kind": "cli", "files": []genlab.File{{Path: "s.json", Content: space.Text(s.schema)}}, "args": args, "cfg": fc.cfg}
+		replay := map[string]any{"kind": "cli", "files": s.files(), "args": args, "cfg": fc.cfg}
 		libOK := l.Crash == "" && !l.Hang && l.Res.Panic == "" && l.Res.Err == ""
 		if (r.Exit == 0) != libOK {
 			ctx.Run.Violation("cli-vs-library:status:"+fc.name, fmt.Sprintf("%s: CLI exit %d but library ok=%v (%s)", id, r.Exit, libOK, firstLine(r.Stderr)), replay)
@@ -677,7 +722,7 @@ func c16CLI(ctx *Ctx, schemas []c16Schema) {
 			}
 			extra := 0
 			for n := range r.Files {
-				if n == "s.json" {
+				if n == "s.json" || n == "other.json" {
 					continue
 				}
 				if _, ok := l.Res.Outputs[n]; !ok {
